@@ -2,12 +2,14 @@ module verifharness
 
 go 1.20
 
-require github.com/cloudwego/thriftgo v0.0.0
+require (
+	github.com/cloudwego/thriftgo v0.0.0
+	github.com/dlclark/regexp2 v1.11.0
+)
 
 require (
 	github.com/bytedance/gopkg v0.1.4 // indirect
 	github.com/cloudwego/gopkg v0.2.0 // indirect
-	github.com/dlclark/regexp2 v1.11.0 // indirect
 	golang.org/x/text v0.14.0 // indirect
 	gopkg.in/yaml.v3 v3.0.1 // indirect
 )
